@@ -8,6 +8,13 @@ import glob, json, os, sys
 
 ROOT = os.path.dirname(os.path.dirname(os.path.abspath(__file__)))
 ANGLES = {
+    "symmetric": "a CONSISTENT change on both sides of a pair, so that the library still agrees with itself (its own round trips, "
+                 "its own tests) while the absolute behaviour the property states is no longer met: encoder and decoder, writer and "
+                 "parser, generator and consumer, client and server side, cache writer and cache reader changed together (a swapped "
+                 "nibble or byte order on both sides, another padding byte or alphabet on both sides, a size field computed "
+                 "differently on both sides, a key-derivation or IV tweak on both sides, an escape spelled differently by printer "
+                 "and parser, an enum / opcode table edit that both directions share). If the property has no such pair, change a "
+                 "shared definition (table, constant, helper) that every internal user goes through.",
     "substitute": "a refactoring that replaces a standard-library or language construct by a NEAR-equivalent one whose behaviour "
                   "differs only in a corner: split / partition / rsplit with or without maxsplit, find / index, strip / rstrip / "
                   "removesuffix, slicing vs. indexing, `or` default vs. `is None` test, // vs. / or >> on negatives, int() with and "
